@@ -58,7 +58,8 @@ class ReachMonitor:
                 self.lines[spec] = set()
                 self.total[spec] = 0
                 continue
-            self.codes[code] = spec
+            # several anchors may resolve to one code object (methods inherited from a shared base class)
+            self.codes.setdefault(code, []).append(spec)
             self.calls[spec] = 0
             self.lines[spec] = set()
             self.all_lines[spec] = sorted({ln for _, _, ln in code.co_lines() if ln is not None
@@ -83,13 +84,11 @@ class ReachMonitor:
         self.active = True
 
     def _on_start(self, code, offset):
-        spec = self.codes.get(code)
-        if spec is not None:
+        for spec in self.codes.get(code, ()):
             self.calls[spec] += 1
 
     def _on_line(self, code, line):
-        spec = self.codes.get(code)
-        if spec is not None:
+        for spec in self.codes.get(code, ()):
             s = self.lines[spec]
             if line not in s:
                 s.add(line)
